@@ -144,8 +144,9 @@ Definition s_copy (dst src : spen) (ow : bool) : spen :=
    [hi-] body [blanks] [# 6 hex digits],  body = decimal integer | colour name.
    MustAccept i c : documented form, stands for index i (+ RGB8 c);
    MustReject     : neither number-like nor a colour name: must be rejected without effect;
-   Unspecified    : everything else (number followed by other text, "hi-" before a number or
-                    a non-VGA name, malformed RGB part, unrepresentable number, ...). *)
+   Unspecified    : everything else (number followed by other text, "hi-" before a number,
+                    a name of colournames[] beyond the documented eight, malformed RGB part,
+                    unrepresentable number, ...). *)
 Inductive verdict := MustAccept (i : Z) (c : option rgb) | MustReject | Unspecified.
 
 Fixpoint str_eqb (a b : str) : bool :=
@@ -210,6 +211,13 @@ Definition hex6 (s : str) : option rgb :=
   | _ => None
   end.
 
+(* the eight names of the manual page (tickit_pen_set_colour_attr_desc.3), written down by
+   hand: "black, red, green, yellow, blue, magenta, cyan and white, respectively" = 0..7 *)
+Definition doc_names : list (str * Z) :=
+  [([98; 108; 97; 99; 107], 0); ([114; 101; 100], 1); ([103; 114; 101; 101; 110], 2);
+   ([121; 101; 108; 108; 111; 119], 3); ([98; 108; 117; 101], 4);
+   ([109; 97; 103; 101; 110; 116; 97], 5); ([99; 121; 97; 110], 6); ([119; 104; 105; 116; 101], 7)].
+
 Definition spec_desc (s0 : str) : verdict :=
   let '(s, hi) := if starts_with HI s0 then (skipn 3 s0, true) else (s0, false) in
   let '(head, tail) := split_hash s in
@@ -227,15 +235,19 @@ Definition spec_desc (s0 : str) : verdict :=
     | None => Unspecified
     end
   else
-    match lookup_name colournames body with
+    match lookup_name doc_names body with
     | Some col =>
-      if hi && negb (col <? 8) then Unspecified else
       let i := if hi then col + 8 else col in
       match tail with
       | None => MustAccept i None
       | Some t => match hex6 t with Some c => MustAccept i (Some c) | None => Unspecified end
       end
-    | None => MustReject
+    | None =>
+      (* names the table has beyond the documented eight are neither demanded nor forbidden *)
+      match lookup_name colournames body with
+      | Some _ => Unspecified
+      | None => MustReject
+      end
     end.
 
 (* the dictionary after a description call that returned [ret] *)
